@@ -489,3 +489,93 @@ class ScriptedClock:
         else:
             raise ValueError(k)
         return self.t
+
+
+# --------------------------------------------------------------------------- per-call purity guard
+
+
+class PurityGuard:
+    """Context manager: byte snapshots of every array / list argument around EVERY public constructor, fit /
+    transform / predict / score ... method and metric / utility function call made while it is active - so that
+    intermediate results which the caller hands from one call to the next (T = transform(X); inverse_transform(T))
+    are guarded like the original arguments.  Explicit opt-ins to in-place work (copy=False given by the caller;
+    X_orthogonalizer without copy=True) are exempt.  Records, never raises."""
+
+    METHODS = ("fit", "transform", "predict", "score", "inverse_transform", "fit_transform", "score_samples", "score_feature_matrix")
+    FUNCS = ("pointwise_global_reconstruction_error", "global_reconstruction_error", "pointwise_global_reconstruction_distortion", "global_reconstruction_distortion", "pointwise_local_reconstruction_error", "local_reconstruction_error", "local_prediction_rigidity", "componentwise_prediction_rigidity", "periodic_pairwise_euclidean_distances", "pairwise_mahalanobis_distances")
+
+    def __init__(self):
+        self.violations = []
+        self.calls = 0
+        self.arrays = 0
+        self._undo = []
+
+    def _wrap(self, name, orig, is_method, opt_in=None):
+        guard = self
+
+        def wrapper(*a, **kw):
+            if opt_in is not None and opt_in(a, kw):
+                return orig(*a, **kw)
+            args = (a[1:] if is_method else a, kw)
+            before = snapshot(args)
+            res = orig(*a, **kw)
+            try:
+                changed = diff_snapshot(before, args)
+                guard.calls += 1
+                guard.arrays += len(before)
+                if changed:
+                    guard.violations.append({"call": name, "modified": changed})
+            except Exception:  # noqa: BLE001
+                pass
+            return res
+
+        wrapper.__name__ = getattr(orig, "__name__", name)
+        wrapper.__doc__ = getattr(orig, "__doc__", None)
+        wrapper.__wrapped__ = orig
+        return wrapper
+
+    def __enter__(self):
+        import skmatter.clustering as cl
+        import skmatter.decomposition as dc
+        import skmatter.linear_model as lm
+        import skmatter.metrics as mt
+        import skmatter.neighbors as nb
+        import skmatter.preprocessing as pp
+        import skmatter.sample_selection as ss
+        import skmatter.utils as ut
+        from skmatter._selection import GreedySelector
+
+        copy_false = lambda a, kw: kw.get("copy") is False  # noqa: E731
+        classes = [GreedySelector, ss.DirectionalConvexHull, dc.PCovR, dc.KernelPCovR, pp.StandardFlexibleScaler, pp.KernelNormalizer, pp.SparseKernelCenterer, lm.Ridge2FoldCV, lm.OrthogonalRegression, nb.SparseKDE, cl.QuickShift]
+        for cls in classes:
+            names = list(self.METHODS) + (["__init__"] if cls in (nb.SparseKDE, cl.QuickShift) else [])
+            for m in names:
+                if m in cls.__dict__:
+                    orig = cls.__dict__[m]
+                    setattr(cls, m, self._wrap(f"{cls.__name__}.{m}", orig, True, copy_false))
+                    self._undo.append((cls, m, orig))
+
+        def rebind_all(func, name, opt_in=None):
+            w = self._wrap(name, func, False, opt_in)
+            for mname, mod in list(sys.modules.items()):
+                if mod is None or not mname.startswith("skmatter"):
+                    continue
+                for k, v in list(vars(mod).items()):
+                    if v is func:
+                        setattr(mod, k, w)
+                        self._undo.append((mod, k, func))
+
+        for fn in self.FUNCS:
+            rebind_all(getattr(mt, fn), f"metrics.{fn}")
+        rebind_all(ut.X_orthogonalizer, "utils.X_orthogonalizer", lambda a, kw: kw.get("copy") is not True)
+        rebind_all(ut.Y_feature_orthogonalizer, "utils.Y_feature_orthogonalizer", copy_false)
+        rebind_all(ut.Y_sample_orthogonalizer, "utils.Y_sample_orthogonalizer", copy_false)
+        rebind_all(ut.pcovr_covariance, "utils.pcovr_covariance")
+        rebind_all(ut.pcovr_kernel, "utils.pcovr_kernel")
+        return self
+
+    def __exit__(self, *exc):
+        for obj, k, orig in reversed(self._undo):
+            setattr(obj, k, orig)
+        self._undo = []
+        return False
